@@ -53,6 +53,7 @@ ExprByName(n) ==
     [] n = "exp"     -> Num("1e3")
     [] n = "imag"    -> Num("2j")
     [] n = "under"   -> Num("1_000")
+    [] n = "hexupper" -> Num("0XFF")
     [] n = "bin"     -> Num("0b101")
     [] n = "oct"     -> Num("0o17")
     [] n = "dotfive" -> Num(".5")
@@ -127,7 +128,7 @@ ExprByName(n) ==
     [] n = "walrus"  -> Node("NamedExpr", "", <<nY, nA>>)
 
 AllExprNames ==
-  {"bin", "oct", "dotfive", "onedot", "expneg", "stropen", "strkw",
+  {"hexupper", "bin", "oct", "dotfive", "onedot", "expneg", "stropen", "strkw",
    "name", "int", "hex", "float", "exp", "imag", "under", "str1", "str2", "strhash", "strparen", "bytes", "raw",
    "triple", "concat", "none", "true", "dots", "add", "mulnest", "addmul", "pow", "neg", "not", "inv", "and",
    "or3", "lt", "isnot", "notin", "attr", "attr2", "call0", "call1", "call2", "callkw", "callstar", "callcall",
@@ -203,6 +204,16 @@ CtxByName(n, e) ==
     [] n = "elif"      -> Ctx(<<If(nA, PassB, <<If(e, PassB, <<ExprS(nB)>>)>>)>>, <<1, 3, 1, 1>>)
     [] n = "ifbody"    -> Ctx(<<If(nA, <<Assign(nX, e)>>, <<Assign(nX, nB)>>)>>, <<1, 2, 1, 2>>)
     [] n = "nested"    -> Ctx(<<If(nA, <<If(nB, <<Assign(nX, e)>>, <<>>), ExprS(nC)>>, <<>>)>>, <<1, 2, 1, 2, 1, 2>>)
+    \* a statement ending in e directly followed, in the same (nested) block, by a statement that starts
+    \* with a string literal, and a later statement pending at an enclosing level
+    [] n = "pairtop"   -> Ctx(<<Assign(nX, e), ExprS(Str("'t'")), ExprS(nC)>>, <<1, 2>>)
+    [] n = "pairif"    -> Ctx(<<If(nA, <<Assign(nX, e), ExprS(Str("'t'"))>>, <<>>), ExprS(nC)>>, <<1, 2, 1, 2>>)
+    [] n = "pairdef"   -> Ctx(<<FDef("g", <<Block(<<ExprS(e), ExprS(Call(Attr(Str("','"), "join"), <<nY>>)), Return(nX)>>)>>),
+                                Assign(nX, Call(Name("g"), <<>>))>>, <<1, 1, 1, 1>>)
+    [] n = "pairclass" -> Ctx(<<CDef("C", <<Block(<<Assign(nX, e), ExprS(Str("\"The x.\"")), Assign(nY, n1)>>)>>), ExprS(nC)>>, <<1, 1, 1, 2>>)
+    [] n = "pairdeep"  -> Ctx(<<If(nA, <<Node("For", "", <<nX, nC, Block(<<Assign(nY, e), ExprS(Call(Attr(Str("'t'"), "strip"), <<>>))>>)>>),
+                                         Assign(nX, n1)>>, <<>>)>>, <<1, 2, 1, 3, 1, 2>>)
+    [] n = "pairlast"  -> Ctx(<<FDef("g", <<Block(<<Assign(nX, e), ExprS(Str("'t'"))>>)>>)>>, <<1, 1, 1, 2>>)
     [] n = "while"     -> Ctx(<<While(e, PassB)>>, <<1, 1>>)
     [] n = "whileelse" -> Ctx(<<Node("While", "", <<e, Block(<<Leaf("Break", "")>>), Block(PassB)>>)>>, <<1, 1>>)
     [] n = "for"       -> Ctx(<<Node("For", "", <<nX, e, Block(PassB)>>)>>, <<1, 2>>)
@@ -243,7 +254,8 @@ CtxByName(n, e) ==
     [] n = "matchguard" -> Ctx(<<Node("Match", "", <<nA, Case(<<Leaf("MatchAs", ""), e, Block(PassB)>>)>>)>>, <<1, 2, 2>>)
 
 AllCtxNames ==
-  {"expr", "assign", "assign2", "assigntup", "aug", "ann", "anntype", "two", "second", "ret", "call", "call2nd",
+  {"pairtop", "pairif", "pairdef", "pairclass", "pairdeep", "pairlast",
+   "expr", "assign", "assign2", "assigntup", "aug", "ann", "anntype", "two", "second", "ret", "call", "call2nd",
    "call1st", "kw", "star", "dstar", "callee", "attrof", "index", "indexed", "slicelo", "slicehi", "binl", "binr",
    "powl", "neg", "not", "and", "or3", "cmp", "isnot", "notin", "tuple", "tuple1", "list", "set", "dictv", "dictk",
    "ifexpt", "ifexpb", "ifexpe", "lambody", "lamdef", "compelt", "compiter", "compif", "genelt", "dcompv", "fstr",
@@ -266,7 +278,7 @@ Trees == { [cn |-> cn, en |-> en] : cn \in CtxOn \cap AllCtxNames, en \in ExprOn
 \* Layout decisions
 ParenChoices(t, h) ==
   LET e == At(t, h)
-      Parenable == ExprKinds \ {"Starred"}
+      Parenable == ExprKinds \ {"Starred", "Slice"}
       kid == IF Len(e.c) > 0 /\ e.c[1].k \in Parenable /\ e.k # "NamedExpr" THEN {h \o <<1>>} ELSE {}
       lastkid == IF Len(e.c) > 1 /\ e.c[Len(e.c)].k \in Parenable THEN {h \o <<Len(e.c)>>} ELSE {}
   IN (IF "none" \in ParenKinds THEN {<<>>} ELSE {})
